@@ -150,15 +150,15 @@ def run(ctx):
                    sample={"rule": "coldef-layout", "sequence": desc})
             # optional trailer: a single 0xFB, only when the field-list flag (a bool parameter) is set on this path
             if extra:
-                flag_true = False
+                flags_true = set()
                 for i, bblk in enumerate(p.blocks[:-1]):
                     t = wcd.term(bblk)
                     if t["k"] == "switch":
                         v = p.origin_op(t["discr"], i)
                         if T.is_param(v) and v[1] in bool_params and "0" in t["vals"]:
                             if p.blocks[i + 1] != t["tgts"][t["vals"].index("0")]:
-                                flag_true = v[1]
-                ok = len(extra) == 1 and extra[0].const_bytes() == b"\xfb" and flag_true == bool_params[0]
+                                flags_true.add(v[1])
+                ok = wire.sym_bytes(extra) == [("c", 0xFB)] and bool_params[0] in flags_true
                 ctx.ob("C09.coldef-layout", ok, "bytes after the fixed fields (%s) are only allowed as a single fb under the field-list flag" % [e.short() for e in extra],
                        fn=wcd.path, construct="trailer", where=wcd.where(p.blocks[-1]))
         # ---- eof policy ------------------------------------------------------------------------
